@@ -10,7 +10,7 @@
   threads (three consumption modes) with the model's and the L0 spec's sequential answer, and checks
   address-disjointness of all mutable items handed out in one parallel iteration.
 -/
-import BroodModel.Par
+import BroodModel.Lemmas.ParL
 
 namespace Brood
 
@@ -66,6 +66,17 @@ theorem C09_zip_pieces {α β} (t : Split) (xs : List α) (ys : List β) (h : xs
     rw [← List.zip_append (by simp [h])]
     simp [List.take_append_drop]
 
+/-- **At the level of worlds**: `par_query` over the archetype table traversed in any order, every
+archetype's rows split by any tree, hands out a permutation of the rows the sequential `query`
+returns — which (C03) are exactly one row per matching live entity, with that entity's values. -/
+theorem C09_par_query_is_query {w : World} (hi : Inv w) (vs : List View) (f : Filter)
+    (trees : Arch → Split) {visit : List Arch} (hp : visit.Perm w.archs) :
+    ∃ rows, parQueryArchs vs f trees visit = .ok rows ∧
+      rows.Perm (Spec.query w.n ⟨w.ents, w.res, []⟩ vs f) ∧
+      ∃ seq, w.query vs f = .ok seq ∧ rows.Perm seq := by
+  obtain ⟨rows, h1, h2⟩ := par_query_perm hi vs f trees hp
+  exact ⟨rows, h1, h2, _, query_eq_spec hi vs f, h2⟩
+
 example : (Split.node 2 (.node 1 .leaf .leaf) .leaf).pieces [10, 20, 30] = [[10], [20], [30]] := by decide
 
 end Brood
@@ -74,3 +85,4 @@ end Brood
 #print axioms Brood.C09_count
 #print axioms Brood.C09_repeat_none_split
 #print axioms Brood.C09_zip_pieces
+#print axioms Brood.C09_par_query_is_query
